@@ -10,10 +10,11 @@ RULES[PID] = ("e2e leg c09-e2e: a seeded generator writes multi-threaded Rust de
               "each calling the #[inline(never)] targets hit_a / hit_b K times (K <= 5, 3, 2 for N <= 8, 16, 64) with seeded yield_now / spins / sleeps in "
               "between; half of the programs are creation/exit storms (2-5 waves of thread creation while earlier waves are arriving at the breakpoints, "
               "short-lived threads, joins in the middle, the main thread calling hit_a itself); one program in six is a 'hammer' (4-12 threads calling the "
-              "targets back to back 6-20 times); a quarter pin themselves to 1-2 CPUs with sched_setaffinity, a fifth of the histories pin tracer and "
-              "debuggee together to one CPU. The first action of a target is `add qword [slot], 1` on the calling thread's own counter (label hit_a_inc); "
+              "targets back to back 6-20 times); every debuggee is confined by the harness to 1-3 seeded CPUs (sched_setaffinity on the forked child: 15% one, 35% two, 50% "
+              "three CPUs), a quarter of the programs narrow that themselves to 1-2 CPUs, a fifth of the histories pin tracer and debuggee together to one CPU; "
+              "between calls the workers yield, sleep 1-300 us or spin <= 2000 iterations (programs with more than 12 threads only sleep 50-2000 us: the machine is shared). The first action of a target is `add qword [slot], 1` on the calling thread's own counter (label hit_a_inc); "
               "the program prints all counters with the kernel tids at exit. Every program is run in 6 (quick) / 12 (thorough) histories, each in a forked "
-              "child with a watchdog, the programs in parallel worker processes: user breakpoints on hit_a (by function or exactly on the counting "
+              "child with a watchdog, the programs in at most 4 parallel worker processes (debug information loaded with 3 threads each): user breakpoints on hit_a (by function or exactly on the counting "
               "instruction) and sometimes hit_b; `continue` until the exit; the mixes rotate: continue only; breakpoint removed / re-added at stops (and "
               "removed exactly when /proc shows a thread with the breakpoint's SIGTRAP raised but not yet reported); 1-3 stepi after a stop; next / "
               "step-out after a stop; thread switch (+ stepi of a thread standing on a breakpoint) then continue. Seeded delays of 0-50 / 500 / 3000 us "
@@ -69,9 +70,10 @@ def run(tier, seed):
     if tier == "thorough" and ok:
         ctx.coqchk()
     if ctx.harness_build():
-        # programs, histories per program, parallel workers. Measured at load 20-30 on 16 cores: 108 histories 184 s, 192 histories 358 s
-        # (most of it is launching: 3-10 s per history), Coq 1-2 s per case on 10 cores.
-        progs, hist, jobs = (8, 6, 8) if tier == "quick" else (40, 12, 8)
+        # programs, histories per program, parallel workers (the leg never uses more than 4: the machine is shared; each debuggee is
+        # confined to 1-3 CPUs, each debugger loads debug information with 3 threads). Measured at load 20-25 on 16 cores with these caps:
+        # 48 histories 141 s + 75 s coqc (4 at a time); most of it is launching (3-4 s per history). Thorough: 384 histories ~ 19 min + coqc.
+        progs, hist, jobs = (8, 6, 4) if tier == "quick" else (32, 12, 4)
         s = run_classified_leg(ctx, "c09-e2e", [seed, progs, ctx.cases_dir, ctx.scratch, hist, jobs],
                                "all-stop / exactly-once on the observations and replay of the tracer model over the recorded event log", classify)
         if s is not None:
